@@ -316,6 +316,14 @@ func runRules(c *evid.Case) {
 				}
 			}
 		}
+		for _, pd := range mu.pre {
+			if r, _ := e.validate(c, mv, pd); r.Accepted() {
+				c.Count("mutant_history_step_accepted/"+mu.name, 1)
+				e.judge(c, post, pd, &hist, fmt.Sprintf("history step of mutant %q of honest %s", mu.name, m.Tag), map[string]any{"mutation": mu.name, "stream": s.name, "position": i})
+			} else {
+				c.Count("mutant_history_step_refused/"+mu.name, 1)
+			}
+		}
 		r, pan := e.validate(c, mv, mu.d)
 		c.Count("mutants", 1)
 		c.Count("mutants/"+mu.rule, 1)
@@ -372,6 +380,7 @@ type mutant struct {
 	after  bool // validated after the honest original was accepted
 	benign bool // not rule-breaking by itself (control)
 	d      delivery
+	pre    []delivery // validated (and judged) before d: a history step the mutant needs
 }
 
 func (e *env) deliver(m *vsim.Msg, post bool) delivery {
@@ -663,6 +672,25 @@ func (e *env) mutants(rng *rand.Rand, s *stream, i int, post bool) []mutant {
 			m.Cons.Message.Root = [32]byte{}
 		}
 		addMsg("signer-slot", "same-signer-previous-slot", true, m)
+		// the same, but first the signer's post-consensus signature for that previous slot arrives late (per-slot duties:
+		// the partial-signature path shares the per-signer state with the consensus path)
+		if m2 := m.Clone(); remake(m2) {
+			x := firstSigner(m0)
+			for _, pm := range s.msgs {
+				if pm.Part == nil || pm.Part.Signer != x || pm.Part.Message.Type != spectypes.PostConsensusPartialSig || pm.Role != m0.Role {
+					continue
+				}
+				late := pm.Clone()
+				late.Part.Message.Slot = m.Slot
+				late.Slot = m.Slot
+				if remake(late) {
+					ld := e.deliver(late, post)
+					ld.at = hd.at
+					out = append(out, mutant{rule: "signer-slot", name: "same-signer-previous-slot-after-its-late-post-consensus-signature", after: true, d: e.deliver(m2, post), pre: []delivery{ld}})
+				}
+				break
+			}
+		}
 		// round regression
 		if sm0.Message.Round >= 2 {
 			m := m0.Clone()
